@@ -61,7 +61,9 @@ class Validator:
         self.loads()
         self.sections_vs_segments()
         self.special_segments()
-        self.relro()
+        if self.who == "wild" or not self.info["script"]:
+            # (under -T GNU ld emits no RELRO at all and lld's is not page-separated: no reference there)
+            self.relro()
 
     # -- "Every output file is a valid ELF image" ------------------------------------------------
     def header(self):
